@@ -44,7 +44,7 @@ func (c10) Batches(tier string, seed uint64) []core.Batch {
 
 // every exported field of every typed struct must have been compared.
 func (c10) Mandatory(tier string) []string {
-	m := []string{"layout:folded-comma-list", "layout:single-line-comma-list", "layout:folded-dependency", "layout:checksum-block", "layout:blanks-before-separator", "size:>=2^31", "size:int-field>=2^31", "entry:ParseDscFile-relative-path", "entry:ParseChangesFile", "entry:ParseControlFile", "accessor:Maintainers", "accessor:HasArchAll:true",
+	m := []string{"layout:folded-comma-list", "layout:single-line-comma-list", "layout:folded-dependency", "layout:checksum-block", "layout:blanks-before-separator", "size:>=2^31", "size:int-field>=2^31", "entry:ParseDscFile-relative-path", "entry:ParseChangesFile", "entry:ParseControlFile", "reader:bufio-smaller-than-4096", "accessor:Maintainers", "accessor:HasArchAll:true",
 		"accessor:HasArchAll:false", "accessor:AbsFiles", "accessor:DebianSource:found", "accessor:DebianSource:none", "accessor:GetDSC", "accessor:SourcePackage:binnmu",
 		"accessor:SourcePackage:default", "accessor:GetDepends", "accessor:GetBuildDepends", "accessor:Checksums:sha256", "accessor:Checksums:sha512", "accessor:Checksums:none",
 		"accessor:SourceName", "arch:two-part", "arch:all", "arch:wildcard"}
@@ -412,6 +412,15 @@ func comparePara(c *core.C, what string, got control.Paragraph, text string, idx
 	}
 }
 
+// bufReader: the typed parsers take a *bufio.Reader from the caller; its size is the caller's business.
+func bufReader(r *core.Rand, c *core.C, text string) *bufio.Reader {
+	size := r.Pick3(4096, 4096, 16, 100, 512, 4095, 65536)
+	if size < 4096 {
+		c.Cover("reader:bufio-smaller-than-4096")
+	}
+	return bufio.NewReaderSize(strings.NewReader(text), size)
+}
+
 // ---- per-kind generators ----
 
 type c10Case struct {
@@ -540,7 +549,7 @@ func (p c10) dsc(c *core.C, t *core.T, r *core.Rand) {
 	text := d.sb.String()
 	path := "/some/where/" + r.Pick([]string{"x.dsc", "sub/dir/y.dsc"})
 	d.want["Filename"] = path
-	got, err := control.ParseDsc(bufio.NewReader(strings.NewReader(text)), path)
+	got, err := control.ParseDsc(bufReader(r, c, text), path)
 	if err != nil || got == nil {
 		c.Failf("ParseDsc failed on a well-formed .dsc: %v\ndocument: %q", err, text)
 		return
@@ -700,7 +709,7 @@ func (p c10) changes(c *core.C, t *core.T, r *core.Rand) {
 	os.MkdirAll(dir, 0o755)
 	path := filepath.Join(dir, base+"_source.changes")
 	d.want["Filename"] = path
-	got, err := control.ParseChanges(bufio.NewReader(strings.NewReader(text)), path)
+	got, err := control.ParseChanges(bufReader(r, c, text), path)
 	if err != nil || got == nil {
 		c.Failf("ParseChanges failed on a well-formed .changes: %v\ndocument: %q", err, text)
 		return
@@ -844,7 +853,7 @@ func (p c10) control(c *core.C, r *core.Rand) {
 			os.Remove(fp)
 		}
 	}
-	got, err := control.ParseControl(bufio.NewReader(strings.NewReader(text)), path)
+	got, err := control.ParseControl(bufReader(r, c, text), path)
 	if err != nil || got == nil {
 		c.Failf("ParseControl failed on a well-formed debian/control: %v\ndocument: %q", err, text)
 		return
@@ -961,7 +970,7 @@ func (p c10) packages(c *core.C, r *core.Rand) {
 		}
 		text += d.sb.String()
 	}
-	got, err := control.ParseBinaryIndex(bufio.NewReader(strings.NewReader(text)))
+	got, err := control.ParseBinaryIndex(bufReader(r, c, text))
 	if err != nil {
 		c.Failf("ParseBinaryIndex failed on a well-formed Packages file: %v\ndocument: %q", err, text)
 		return
@@ -1046,7 +1055,7 @@ func (p c10) sources(c *core.C, r *core.Rand) {
 	if r.Bool() {
 		text += "\nPackage: other\nBinary: other\nVersion: 1\nMaintainer: x\nArchitecture: all\nFormat: 1.0\nFiles:\n d41d8cd98f00b204e9800998ecf8427e 0 other_1.dsc\nDirectory: pool/o\n"
 	}
-	got, err := control.ParseSourceIndex(bufio.NewReader(strings.NewReader(text)))
+	got, err := control.ParseSourceIndex(bufReader(r, c, text))
 	if err != nil || len(got) == 0 {
 		c.Failf("ParseSourceIndex failed on a well-formed Sources file: %v\ndocument: %q", err, text)
 		return
